@@ -5,7 +5,7 @@ namespace Py
 
 inductive Exc
   | valueError | indexError | typeError | hpackDecodingError | invalidTableIndex | invalidTableSizeError
-  | oversizedHeaderListError | unicodeDecodeError | nonTermination
+  | oversizedHeaderListError | unicodeDecodeError | zeroDivisionError | nonTermination
 deriving Repr, DecidableEq
 
 abbrev R := Except Exc
@@ -144,6 +144,31 @@ def ord1 (b : List UInt8) : R Int :=
   match b with
   | [x] => .ok (x.toNat : Int)
   | _ => .error .typeError
+
+/-- `a ** b` on integers with a non-negative exponent (a negative one yields a float: outside the translated subset) -/
+def ipow (a b : Int) : R Int := if b < 0 then .error .typeError else .ok (a ^ b.toNat)
+/-- `a % b` (the result has the sign of `b`; ZeroDivisionError for 0, rendered as ValueError's sibling `typeError` is wrong: its own class) -/
+def imod (a b : Int) : R Int := if b = 0 then .error .zeroDivisionError else .ok (a.fmod b)
+/-- `a // b` (floor division) -/
+def ifloordiv (a b : Int) : R Int := if b = 0 then .error .zeroDivisionError else .ok (a.fdiv b)
+
+/-- hexadecimal digits of a natural number, most significant first (`[0]` for 0) -/
+def hexDigitsNat (n : Nat) : List Nat :=
+  if _h : n < 16 then [n] else hexDigitsNat (n / 16) ++ [n % 16]
+termination_by n
+decreasing_by omega
+
+/-- `hex(n)[2:].rstrip("L")` for a non-negative `n` (a negative one has a sign in front: outside the translated subset) -/
+def hexDigits (n : Int) : R (List Nat) := if n < 0 then .error .typeError else .ok (hexDigitsNat n.toNat)
+
+/-- `bytes.fromhex(s)` for a string of hexadecimal digits: ValueError for an odd number of digits -/
+def fromHex : List Nat → R (List UInt8)
+  | [] => .ok []
+  | [_] => .error .valueError
+  | a :: b :: rest =>
+    match fromHex rest with
+    | .ok bs => .ok (UInt8.ofNat (a * 16 + b) :: bs)
+    | .error e => .error e
 
 /-- `d.get(key)` on a dict with bytes keys, kept as an insertion-ordered association list -/
 def assocGet {β} : List (List UInt8 × β) → List UInt8 → Option β
